@@ -321,7 +321,9 @@ pub fn run_base(slots: &mut Vec<Option<Unimock>>, unwinding: bool, base: &Base) 
                         } else if format!("{code:?}") == format!("{:?}", ExitCode::FAILURE) {
                             "exit:FAILURE".into()
                         } else {
-                            format!("exit:{code:?}")
+                            // a configured exit code: ExitCode's Debug is the only way to look inside
+                            let digits: String = format!("{code:?}").chars().filter(|c| c.is_ascii_digit()).collect();
+                            format!("exit:r{digits}")
                         }
                     },
                 )
